@@ -554,6 +554,8 @@ def _closure_method_rewrite(text, dropped, method, build, rule_name, what):
         close = match[i + 2]
         recv = text[toks[r0].s:toks[i].s]
         name = text[toks[i + 4].s:toks[k - 1].e]      # the closure's parameter pattern
+        if re.match(r'^\w+\s*:', name):
+            name = name.split(':', 1)[0].strip()      # `|x: &T|` -> `x` (the type is known from the receiver)
         body = text[toks[k].e:toks[close].s]
         new = build(recv, name, body)
         old = text[toks[r0].s:toks[close].e]
